@@ -134,6 +134,9 @@ func (c *Conn) RunPeer(name string, base int, steps []Step, inj *Inject) {
 			}
 			if st.Gap > 0 {
 				simnet.Gap(st.Gap)
+				if c.C.IsClosed() {
+					return // nobody is listening any more
+				}
 			}
 			if st.Cut {
 				c.C.CutRead()
